@@ -38,6 +38,22 @@ POOL = ["a", " b", "  c", "", "  ", "!x", " !y", "banner motd ^", "banner login 
         " ", "   d", "interface Gi0/1", " ip address 1.1.1.1 255.0.0.0"]
 
 
+# lines that the typed-model factories (models_*.py is_object_for) claim, decorated with braces / odd characters:
+# the factory may only choose the class of a line, never rewrite it
+FACTORY_POOL = ["hostname r{1}", "hostname", "interface Gi0/1{a}", "interface", " ip address 1.1.1.1 255.0.0.0", "aaa authentication login {x} local",
+                "aaa authorization exec default group {t} local", "aaa accounting commands 15 default start-stop group t{", "ip route 10.0.0.0 255.0.0.0 1.1.1.1 name r{1}",
+                "ipv6 route ::/0 2001:db8::1", "ip route vrf V{ 0.0.0.0 0.0.0.0 Null0", "no cdp run", "logging event link-status global", "line vty 0 4", "line con 0 }",
+                "access-list X remark a{1}b", "access-list 10 permit any", "access-list A extended permit ip any any", "access-list A extended deny tcp any host 1.1.1.1 eq 80 log {",
+                "object-group network G{1}", " network-object host 1.1.1.1", " network-object 10.0.0.0 255.0.0.0", "object-group service S{1} tcp", " port-object eq 80",
+                "object network N{1}", " host 1.1.1.1", "object service V}", " service tcp destination eq 80", "name 1.1.1.1 n{1}", "name 1.1.1.2 n2 description {d}",
+                "mtu inside 1500", "mtu {", "vpc domain 1{", "interface Ethernet1/1", " vrf member {v}", "interface port-channel1", " description {uplink} to core",
+                "router bgp 1", " neighbor 1.1.1.1 remote-as 2 {", "ip as-path access-list 1 permit _6500{1,3}_", "event manager applet E", " action 1.0 cli command \"x {y}\""]
+
+
+def factory_lines(rng, maxlen=8):
+    return [rng.choice(FACTORY_POOL if rng.random() < 0.8 else POOL) for _ in range(rng.randint(1, maxlen))]
+
+
 def random_lines(rng, maxlen=9, pool=POOL):
     return [rng.choice(pool) for _ in range(rng.randint(1, maxlen))]
 
